@@ -106,6 +106,7 @@ type Case struct {
 	Prop    string           `json:"property"`
 	Profile string           `json:"profile"`
 	Build   string           `json:"build"` // maporder | lockstep
+	Variant string           `json:"variant,omitempty"`
 	Seed    uint64           `json:"seed"`  // per-run seed: keyed network decisions, ids, schedules
 	Knobs   map[string]int64 `json:"knobs,omitempty"`
 	Steps   []Step           `json:"steps"`
@@ -187,6 +188,7 @@ type Check struct {
 	ID       string
 	Level    string // exploration | fault_enumeration
 	Build    string // maporder | lockstep
+	Variant  string // distinguishes several checks of one property on one build
 	Rule     string // non-triviality / distinctness rule for the evidence file
 	Real     []string
 	Stub     []string
@@ -207,9 +209,25 @@ type Check struct {
 var checks = map[string]*Check{}
 var checkVariants = map[string][]*Check{} // property id -> all engine variants
 
+func (c *Check) key() string {
+	k := c.ID + "/" + c.Build
+	if c.Variant != "" {
+		k += "/" + c.Variant
+	}
+	return k
+}
+
+func caseKey(c *Case) string {
+	k := c.Prop + "/" + c.Build
+	if c.Variant != "" {
+		k += "/" + c.Variant
+	}
+	return k
+}
+
 func register(c *Check) {
 	checkVariants[c.ID] = append(checkVariants[c.ID], c)
-	checks[c.ID+"/"+c.Build] = c
+	checks[c.key()] = c
 }
 
 // ---------------------------------------------------------------------------------------
